@@ -44,6 +44,7 @@ theorem conv_error {d : Dtype} {v : Val} {e : Exc} (h : conv d v = .error e) : e
     · split at h <;> cases h; rfl
   · cases h
   · cases h
+  · cases h
 
 theorem convAll_error {d : Dtype} {vs : List Val} {e : Exc} (h : convAll d vs = .error e) :
     e = .valueConv := by
@@ -282,7 +283,7 @@ theorem setVar_same {vars : List (Name × Series)} {name : Name} {ser : Series}
 @[simp] theorem put_span (s : Store) (name : Name) (ser : Series) : (s.put name ser).span = s.span := rfl
 @[simp] theorem put_attrs (s : Store) (name : Name) (ser : Series) : (s.put name ser).attrs = s.attrs := rfl
 @[simp] theorem put_strict (s : Store) (name : Name) (ser : Series) : (s.put name ser).strict = s.strict := rfl
-@[simp] theorem put_hidden (s : Store) (name : Name) (ser : Series) : (s.put name ser).hidden = s.hidden := rfl
+@[simp] theorem put_nonNames (s : Store) (name : Name) (ser : Series) : (s.put name ser).nonNames = s.nonNames := rfl
 @[simp] theorem put_n (s : Store) (name : Name) (ser : Series) : (s.put name ser).n = s.n := rfl
 @[simp] theorem put_spanKind (s : Store) (name : Name) (ser : Series) :
     (s.put name ser).spanKind = s.spanKind := rfl
@@ -352,7 +353,7 @@ structure Ext (s s' : Store) : Prop where
   span : s'.span = s.span
   spanKind : s'.spanKind = s.spanKind
   getLoc : s'.getLoc = s.getLoc
-  hidden : s'.hidden = s.hidden
+  nonNames : s'.nonNames = s.nonNames
   defaultKind : s'.defaultKind = s.defaultKind
   extraSize : s'.extraSize = s.extraSize
   extraKeys : s'.extraKeys = s.extraKeys
@@ -364,7 +365,7 @@ theorem Ext.refl (s : Store) : Ext s s :=
 
 theorem Ext.trans {a b c : Store} (h1 : Ext a b) (h2 : Ext b c) : Ext a c := by
   refine ⟨h2.span.trans h1.span, h2.spanKind.trans h1.spanKind, h2.getLoc.trans h1.getLoc,
-    h2.hidden.trans h1.hidden, h2.defaultKind.trans h1.defaultKind, h2.extraSize.trans h1.extraSize,
+    h2.nonNames.trans h1.nonNames, h2.defaultKind.trans h1.defaultKind, h2.extraSize.trans h1.extraSize,
     h2.extraKeys.trans h1.extraKeys, ?_, ?_⟩
   · obtain ⟨e1, he1⟩ := h1.index
     obtain ⟨e2, he2⟩ := h2.index
